@@ -68,12 +68,17 @@ func coerceVars(doc *ast.QueryDocument, vars map[string]interface{}) map[string]
 }
 
 func (e *e2eEnv) run(query string, vars map[string]interface{}, hdr map[string]string) (*e2eRun, error) {
+	return e.runNamed(query, vars, hdr, "")
+}
+
+// runNamed: a document with several operations; the operation that is run and judged must be the document's first.
+func (e *e2eEnv) runNamed(query string, vars map[string]interface{}, hdr map[string]string, opName string) (*e2eRun, error) {
 	doc, gerr := loadQuery(e.gw.es.MergedSchema, query)
 	if gerr != nil {
 		return nil, fmt.Errorf("invalid query: %v", gerr)
 	}
 	e.world.reset()
-	resp, err := e.gw.do(context.Background(), query, vars, "", hdr)
+	resp, err := e.gw.do(context.Background(), query, vars, opName, hdr)
 	if err != nil {
 		return nil, err
 	}
